@@ -44,16 +44,16 @@ type Finding struct {
 
 // Rec collects what one unit of work covered.
 type Rec struct {
-	Unit        string             `json:"unit"`
-	Evaluations int64              `json:"evaluations"`
-	Hashes      []uint64           `json:"-"`
-	HashBlob    string             `json:"hashes,omitempty"`
-	Counters    map[string]int64   `json:"counters,omitempty"`
-	Samples     []json.RawMessage  `json:"samples,omitempty"`
-	Findings    []Finding          `json:"findings,omitempty"`
-	FindingN    map[string]int64   `json:"finding_n,omitempty"`
-	Err         string             `json:"err,omitempty"`
-	Capped      bool               `json:"capped,omitempty"`
+	Unit        string            `json:"unit"`
+	Evaluations int64             `json:"evaluations"`
+	Hashes      []uint64          `json:"-"`
+	HashBlob    string            `json:"hashes,omitempty"`
+	Counters    map[string]int64  `json:"counters,omitempty"`
+	Samples     []json.RawMessage `json:"samples,omitempty"`
+	Findings    []Finding         `json:"findings,omitempty"`
+	FindingN    map[string]int64  `json:"finding_n,omitempty"`
+	Err         string            `json:"err,omitempty"`
+	Capped      bool              `json:"capped,omitempty"`
 	hset        map[uint64]struct{}
 	maxSamples  int
 	out         *bufio.Writer
